@@ -48,21 +48,26 @@ def s1(prog: Program, chk: Check) -> None:
              "coupling_comm to the same bath, and deg_positions to the [north, west] pair "
              "selected by the unique flag", floor=15)
     sites = []
+    im_params = [p for p in prog.unit("tempo:influence_matrix").params]
     for u in prog.units.values():
-        if isinstance(u.node, ast.Lambda):
-            continue
-        for c in walk_local(u.node):
-            if isinstance(c, ast.Call) and call_name(c) == "influence_matrix":
-                sites.append((u, c))
+        body = [u.node.body] if isinstance(u.node, ast.Lambda) else [u.node]
+        for b in body:
+            for c in (ast.walk(b) if isinstance(u.node, ast.Lambda) else walk_local(b)):
+                if isinstance(c, ast.Call) and call_name(c) == "influence_matrix":
+                    sites.append((u, c))
     if len(sites) < 3:
         raise AnalysisError(f"S1: only {len(sites)} influence_matrix call sites (floor 3)")
     want = {"parameters": "self._parameters", "correlations": "BATH.correlations",
             "coupling_acomm": "BATH.coupling_acomm", "coupling_comm": "BATH.coupling_comm"}
     for (u, c) in sites:
         chk.saw(u)
-        kw = {k.arg: k.value for k in c.keywords}
-        dk = c.args[0] if c.args else kw.get("dk")
-        ok = isinstance(dk, ast.Name) and dk.id == "dk" and "dk" in u.params
+        # arguments by parameter name, however they are passed
+        kw = {im_params[i]: a for i, a in enumerate(c.args) if i < len(im_params)}
+        kw.update({k.arg: k.value for k in c.keywords if k.arg})
+        dk = kw.get("dk")
+        own_params = u.params if not isinstance(u.node, ast.Lambda) else \
+            [a.arg for a in u.node.args.args]
+        ok = isinstance(dk, ast.Name) and dk.id == "dk" and "dk" in own_params
         why = "" if ok else "the time-step distance is not passed through unchanged"
         if ok:
             # ... and the name still holds the caller's value: no rebinding on any path
@@ -111,6 +116,28 @@ def s1(prog: Program, chk: Check) -> None:
                                if dotted(t) == "self._unique"]
                         defs.append((st.value, ctx))
                 owner = owner.parent
+            # a selector method that returns the pair: look at what it returns
+            expanded = []
+            for (v, ctx) in defs:
+                mc_ = method_call(v) if isinstance(v, ast.Call) else None
+                ci_ = prog.class_of_unit(u)
+                helper = prog.find_method(ci_, mc_[1]) if (mc_ and mc_[0] == "self" and ci_) else None
+                if helper is None:
+                    expanded.append((v, ctx))
+                    continue
+                for r in [x for x in walk_local(helper.node) if isinstance(x, ast.Return)
+                          and x.value is not None]:
+                    if isinstance(r.value, ast.Name):
+                        for st in walk_local(helper.node):
+                            if isinstance(st, ast.Assign) and dotted(st.targets[0]) == r.value.id:
+                                expanded.append((st.value, ctx + [
+                                    br for (t, br) in branch_context(helper.node, st)
+                                    if dotted(t) == "self._unique"]))
+                    else:
+                        expanded.append((r.value, ctx + [
+                            br for (t, br) in branch_context(helper.node, r)
+                            if dotted(t) == "self._unique"]))
+            defs = expanded
             pairs = [(v, ctx) for (v, ctx) in defs if isinstance(v, ast.List) and len(v.elts) == 2]
             nones = [(v, ctx) for (v, ctx) in defs if isinstance(v, ast.Constant) and v.value is None]
             ok = len(pairs) == 1 and len(nones) == 1 and pairs[0][1] == [True] \
